@@ -25,6 +25,9 @@ enum Op {
     SetUnknown { uuid_seed: u64, loc: String },
     /// put every location back to what the creator wrote
     RestoreAll,
+    /// rewrite the location to a string that differs from the current one but names the same
+    /// path (doubled separator, "/./", trailing "/", leading "./")
+    SetEquivalent { pack: usize, how: u8 },
 }
 
 fn containers(seed: u64, tier: Tier) -> Vec<(String, Logical)> {
@@ -74,6 +77,10 @@ fn containers(seed: u64, tier: Tier) -> Vec<(String, Logical)> {
     out.push(mk("c12-basic-noconcat".into(), Packaging::BasicNoConcat, 1, Comp::Zstd(3), &mut k));
     // many listed packs (pack-info table longer than 55 slots)
     let many = if tier == Tier::Quick { 64 } else { 90 };
+    if tier == Tier::Thorough {
+        // a manifest whose head (headers, per-pack check infos, value store) exceeds 64 KiB
+        out.push(mk("c12-loose-p1900".into(), Packaging::Loose, 1900, Comp::None, &mut k));
+    }
     out.push(mk(format!("c12-loose-p{many}"), Packaging::Loose, many, Comp::None, &mut k));
     out.push(mk(format!("c12-concat-p{many}"), Packaging::Concat, many, Comp::None, &mut k));
     out
@@ -91,6 +98,21 @@ fn gen_location(rng: &mut Rng) -> String {
         _ => rng.range(0, 213) as usize,
     };
     let mut s = String::new();
+    if rng.chance(1, 4) {
+        // a path with several components
+        let parts = rng.range(2, 5);
+        for i in 0..parts {
+            if i > 0 {
+                s.push('/');
+            }
+            for _ in 0..rng.range(1, 8) {
+                s.push((b'a' + rng.below(26) as u8) as char);
+            }
+        }
+        s.push_str(".jbkc");
+        s.truncate(213);
+        return s;
+    }
     let multibyte = rng.chance(1, 2);
     while s.len() < target {
         let left = target - s.len();
@@ -130,6 +152,10 @@ fn gen_history(rng: &mut Rng, n_listed: usize, tier: Tier) -> Vec<Op> {
                 loc: gen_location(rng),
             }),
             1 => ops.push(Op::RestoreAll),
+            2 if rng.chance(1, 2) => ops.push(Op::SetEquivalent {
+                pack: hot,
+                how: rng.below(4) as u8,
+            }),
             2..=5 => ops.push(Op::Set {
                 pack: hot,
                 loc: gen_location(rng),
@@ -281,6 +307,24 @@ fn run_history(dir: &Path, img: &Image, ops: &[Op]) -> (Vec<String>, usize) {
                 (uuid::Uuid::from_bytes(b), loc.clone(), None)
             }
             Op::RestoreAll => unreachable!(),
+            Op::SetEquivalent { pack, how } => {
+                let cur = model[*pack].location.clone();
+                let new = match how {
+                    0 if cur.contains('/') => cur.replacen('/', "//", 1),
+                    1 if cur.contains('/') => cur.replacen('/', "/./", 1),
+                    2 if !cur.is_empty() && !cur.ends_with('/') => format!("{cur}/"),
+                    _ => format!("./{cur}"),
+                };
+                let new = if new.len() <= 213 && new != cur {
+                    new
+                } else {
+                    // too long for an equivalent spelling: a shorter, different location instead
+                    let mut short: String = cur.chars().take(20).collect();
+                    short.push('x');
+                    short
+                };
+                (model[*pack].uuid, new, Some(*pack))
+            }
         };
         let res = jubako::tools::set_location(&entry, uuid, loc.as_str().into());
         let step = format!("step {si} ({})", match target {
@@ -423,6 +467,7 @@ fn ops_json(ops: &[Op]) -> Value {
             Op::Set { pack, loc } => json!({"set": pack, "loc": loc}),
             Op::SetUnknown { uuid_seed, loc } => json!({"unknown": uuid_seed, "loc": loc}),
             Op::RestoreAll => json!("restore-all"),
+            Op::SetEquivalent { pack, how } => json!({"equivalent": pack, "how": how}),
         })
         .collect::<Vec<_>>())
 }
@@ -434,6 +479,11 @@ fn ops_from_json(v: &Value) -> Vec<Op> {
         .map(|o| {
             if o == "restore-all" {
                 Op::RestoreAll
+            } else if let Some(p) = o.get("equivalent") {
+                Op::SetEquivalent {
+                    pack: p.as_u64().unwrap() as usize,
+                    how: o["how"].as_u64().unwrap() as u8,
+                }
             } else if let Some(p) = o.get("set") {
                 Op::Set {
                     pack: p.as_u64().unwrap() as usize,
@@ -529,7 +579,10 @@ pub fn worker_main(args: &Args, w: usize, n: usize) -> ! {
             let r = std::panic::catch_unwind(std::panic::AssertUnwindSafe(|| run_history(&case_dir, &img, &ops)));
             let (bad, steps) = match r {
                 Ok(x) => x,
-                Err(_) => (vec!["step ?: panic".to_string()], 0),
+                Err(_) => {
+                    crate::harness_panic_guard("C12 history");
+                    (vec![format!("step ?: panic at {}", crate::last_panic_location())], 0)
+                }
             };
             let mut min_ops = None;
             if let Some(first) = bad.first() {
